@@ -93,10 +93,12 @@ class C17(Config):
               "Local Open Scope Z_scope.")
     bin = "c17"
     release_too = True
-    n_tags = 59
+    n_tags = 64
     classes = {1: "C17-classify-confirmatory-flip"}
     shard_size = 1500
-    rule = ("every public function of zcash_pool_migration::scheduling and zcash_protocol::zip318::{expiry_height, "
+    rule = ("schedule shifts (state.rs shift_schedule) driven through the public advance_migration overdue path on small states: "
+            "sequences of 1..8 late wake-ups with lags from {1,16,17,33,50,100,143,144,145,1000}, one case per wake-up; "
+            "every public function of zcash_pool_migration::scheduling and zcash_protocol::zip318::{expiry_height, "
             "AnchorBucketInterval, classify, to_code/from_code} driven by a replaying RngCore over recorded u64 word "
             "streams (ChaCha, constant, alternating, single-bit, counter, sparse); classify exhaustively on the "
             "abstracted evidence lattice (11 664 points, two constant sets) plus every covering pair e < e' whose "
@@ -106,6 +108,7 @@ class C17(Config):
         "axioms: none expected (Print Assumptions on every theorem)",
         "vlib/props/c17.py constant extractors (ANCHOR_AGE_CAP, EXPIRY_*, delay constants, PREP_TX_ACTIONS, crossing action counts, denomination bounds, classification codes)",
         "harness/wallet/src/bin/c17.rs: replaying RngCore, printers, catch_unwind wrappers; vlib case-file generator",
+        "schedule-shift cases: the harness builds states through the public from_parts constructors with row 0 a proved, due transfer and an always-satisfiable scripted store, so that advance_migration serves Broadcast{0} and applies shift_schedule(served - scheduled) exactly when the lag exceeds the tolerance (cases returning any other step are dropped and counted)",
         "f64/libm gap: the candidate delay of each stream word is computed by the harness with the same formula (libm::log) and passed to the model as an oracle value; only acceptance (<= cap), the returned delay and the number of words consumed are compared",
     ]
     assumptions = ["usize is 64 bits (the harness target)",
